@@ -32,6 +32,7 @@ import (
 	"github.com/nuts-foundation/nuts-node/auth/oauth"
 	"github.com/nuts-foundation/nuts-node/cmd"
 	"github.com/nuts-foundation/nuts-node/core"
+	httpengine "github.com/nuts-foundation/nuts-node/http"
 	"github.com/nuts-foundation/nuts-node/http/client"
 	"github.com/nuts-foundation/nuts-node/jsonld"
 	"github.com/nuts-foundation/nuts-node/vcr/pe"
@@ -73,6 +74,8 @@ type ledgerLine struct {
 	ClientStrict     bool     `json:"client_strict,omitempty"`
 	ConfiguredStrict bool     `json:"configured_strict,omitempty"`
 	N                int      `json:"n,omitempty"` // index of a context probe in the battery of the parent
+	CacheBytes       int      `json:"cache_bytes,omitempty"`  // running: http.cache.maxbytes as the HTTP engine holds it
+	CacheActive      bool     `json:"cache_active,omitempty"` // running: the caching transport is installed
 }
 
 type jsonLedger struct{ l *worker.Ledger }
@@ -284,7 +287,14 @@ func nodeWorker(args []string) int {
 		return 4
 	case <-reachable:
 	}
-	led.put(ledgerLine{Ev: "running", ClientStrict: client.StrictMode, ConfiguredStrict: system.Config.Strictmode})
+	running := ledgerLine{Ev: "running", ClientStrict: client.StrictMode, ConfiguredStrict: system.Config.Strictmode, CacheBytes: -999,
+		CacheActive: client.DefaultCachingTransport != http.RoundTripper(client.SafeHttpTransport)}
+	if he, ok := findEngine[*httpengine.Engine](system); ok {
+		if hc, ok := he.Config().(*httpengine.Config); ok {
+			running.CacheBytes = hc.ResponseCacheSize // what the HTTP engine was actually configured with
+		}
+	}
+	led.put(running)
 	runProbes(led, rec, sp, system)
 	cancel()
 	select {
@@ -445,6 +455,17 @@ func runProbes(led jsonLedger, rec *recorder, sp childSpec, system *core.System)
 		try("client.NewWithCache", get(client.NewWithCache(10*time.Second)))
 		try("client.NewWithTLSConfig", get(client.NewWithTLSConfig(10*time.Second, &tls.Config{InsecureSkipVerify: true})))
 		if haveAuth {
+			// the node-to-node access token request of the v1 API (its own TLS configuration)
+			if rp := authEngine.RelyingParty(); rp != nil {
+				try("auth.RelyingParty.RequestRFC003AccessToken", func() error {
+					u, err := url.Parse(target)
+					if err != nil {
+						return err
+					}
+					_, err = rp.RequestRFC003AccessToken(context.Background(), "eyJhbGciOiJFUzI1NiJ9.e30.c2ln", *u)
+					return err
+				})
+			}
 			iamClient := authEngine.IAMClient()
 			try("iam.ClientMetadata", func() error { _, err := iamClient.ClientMetadata(context.Background(), target); return err })
 			try("iam.PresentationDefinition", func() error { _, err := iamClient.PresentationDefinition(context.Background(), target); return err })
